@@ -1,10 +1,12 @@
 /-
 C02 — Prime-field arithmetic realises Z/pZ with canonical results (digit-level layer, Montgomery form).
 `⟦a⟧ = val a · R⁻¹ mod p` is the residue a raw digit vector denotes; the theorems below are stated with
-R on the other side to avoid the inverse. Class-C operations (inversion/symbol/exponentiation/root
-algorithms) are compared with the Z/pZ specification by the correspondence run only.
+R on the other side to avoid the inverse. The algorithm layer (exponentiation, inversion, square root,
+Euler-criterion symbol) is in Props/C02B.lean (models of Model/FpAlg.lean); what remains class C
+(divstep / Pornin variants, cube roots) is compared with the Z/pZ specification by the correspondence run only.
 -/
 import RelicVerif.Lemmas.Fp
+import RelicVerif.Props.C02B
 
 namespace Relic.Props.C02
 open Relic.Model
